@@ -985,7 +985,7 @@ pub fn run(ctx: &mut Ctx) {
     );
     ctx.assume("SimNet's connection task mirrors transport/tcp/connection.rs over real yamux + multistream-select + ProtocolSet; Noise/TCP below yamux is replaced by an in-memory pipe (DESIGN §2.3)");
     ctx.assume("interleaving granularity is one poll of one task; tokio::select! branch order inside a poll (Connection picks between the sync and the async channel at random) is fixed by the runtime seed");
-    ctx.assume("the notification negotiation/validation timers are futures_timer::Delay real-time timers: they never fire in these executions; irrelevant once the stream is open, and every open in the programs is accepted by the receiver's user");
+    ctx.assume("the notification negotiation/validation timers run on the virtual clock (cfg hook) but C12 takes no clock steps: they never fire here; irrelevant once the stream is open, and every open in the programs is accepted by the receiver's user");
     ctx.assume("asynchronous sends are issued one at a time per handle (the API takes &mut self) through a clone of the peer's NotificationSink, which is what NotificationHandle::send_async_notification does internally");
     ctx.assume("the receiver-side channels (4096 entries, not configurable) only fill up in the deep-stall program (quick tier: default schedule only; thorough: bound 1); the substream's 64 KiB backpressure boundary is only crossed in the 60000-byte programs");
     ctx.assume("an accepted oversized notification is excluded from the no-gap/no-loss expectation (it must never be delivered; the implementation closes the stream)");
